@@ -439,6 +439,13 @@ void parquet_file_metadata_free(parquet_file_metadata_t* metadata);
  */
 
 /**
+ * Limits of the metadata parser (counts above them are rejected when a file is opened).
+ */
+int32_t parquet_max_schema_elements(void);
+int32_t parquet_max_row_groups(void);
+int32_t parquet_max_columns_per_row_group(void);
+
+/**
  * Write file metadata to a buffer.
  *
  * @param metadata Metadata to write
